@@ -694,6 +694,78 @@ func longListing(run *evid.Run, idx int) {
 	}
 }
 
+// contextDoneBetweenPages: the caller's context ends while a paginated listing is under way - cancelled
+// by the consumer after k items (on a page boundary, one before, one after), or by a second hop's caller.
+// The consumer keeps accepting items. The listing then either delivers everything or ends with an error;
+// what it must not do is stop early and look complete.
+func contextDoneBetweenPages(run *evid.Run, idx int) {
+	page := 2 + idx%3
+	n := page*3 + idx%2 // at least three full pages
+	kind := []string{"Tags", "Repositories"}[idx/2%2]
+	mem := ocimem.New()
+	var want []string
+	for i := 0; i < n; i++ {
+		name, tag := "cb/r", fmt.Sprintf("t%03d", i)
+		if kind == "Repositories" {
+			name, tag = fmt.Sprintf("cb/r%03d", i), "t"
+		}
+		if _, err := mem.PushManifest(context.Background(), name, tag, []byte("m"), "application/x-opaque"); err != nil {
+			run.Inconclusive("context-done-between-pages setup: " + err.Error())
+			return
+		}
+		if kind == "Repositories" {
+			want = append(want, name)
+		} else {
+			want = append(want, tag)
+		}
+	}
+	omitLink := idx/4%2 == 1
+	top, closeAll := stack.HTTP(mem, stack.HTTPOpts{Server: &ociserver.Options{OmitLinkHeaderFromResponses: omitLink}, PageSize: page})
+	defer closeAll()
+	if idx/8%2 == 1 {
+		top2, close2 := stack.HTTP(top, stack.HTTPOpts{PageSize: page})
+		defer close2()
+		top = top2
+	}
+	cancelAfter := []int{page, page - 1, page + 1, 2 * page, 1}[idx/16%5]
+	ctx, cancel := context.WithCancel(context.Background())
+	defer cancel()
+	var got []string
+	var errs []error
+	run.Eval(1)
+	w := map[string]any{"kind": kind, "entries": n, "client_page_size": page, "omit_link": omitLink, "context_cancelled_after_items": cancelAfter}
+	if !run.Case("total/"+kind, w, func() {
+		seq := top.Tags(ctx, "cb/r", "")
+		if kind == "Repositories" {
+			seq = top.Repositories(ctx, "")
+		}
+		seq(func(item string, err error) bool {
+			if err != nil {
+				errs = append(errs, err)
+				return false
+			}
+			got = append(got, item)
+			if len(got) == cancelAfter {
+				cancel()
+			}
+			return len(got) < 10*n
+		})
+	}) {
+		return
+	}
+	run.Count("listings_with_context_done_midway", 1)
+	run.Distinct(fmt.Sprintf("context-done-between-pages/%s/after=%d/page=%d/omitlink=%v/error=%v", kind, cancelAfter, page, omitLink, len(errs) > 0))
+	w["delivered"], w["error"] = got, fmt.Sprint(errs)
+	// what was delivered is a prefix of the listing
+	if len(got) > len(want) || strings.Join(got, "\x00") != strings.Join(want[:len(got)], "\x00") {
+		run.Violation("items/"+kind+"/context-done-midway", fmt.Sprintf("%s delivered %q; the listing is %q", kind, got, want), w)
+		return
+	}
+	if len(errs) == 0 && len(got) < len(want) {
+		run.Violation("silently-shortened/"+kind+"/context-done-midway", fmt.Sprintf("the caller's context was cancelled after %d item(s) of a %d-item listing in pages of %d; the listing delivered %d items and ended without an error", cancelAfter, n, page, len(got)), w)
+	}
+}
+
 func main() {
 	run := evid.Start("C05", "exploration")
 	run.SetRule("a case = one listing (Repositories | Tags | Referrers) over a registry stack drawn from {mem | unify(mem,mem)} + up to 4 layers of {http(page size, server max, Link on/off), debug, select, sub}, a known item set whose size sits around multiples of the page size, a start point (absent, an element, just after/before an element, before the first, beyond the last, URL metacharacters), an optional early-stopping consumer and an optional injected fault. The expected listing is computed from the set the harness stored. " +
@@ -707,6 +779,10 @@ func main() {
 	for _, k := range []string{"Repositories", "Tags", "Referrers"} {
 		run.Floor("listings/"+k, 200, int(run.Counter("listings/"+k)))
 	}
+	for i := 0; i < 80; i++ {
+		contextDoneBetweenPages(run, i)
+	}
+	run.FloorCounter("listings_with_context_done_midway", 80)
 	for i, nl := 0, run.N(3, 24); i < nl; i++ {
 		longListing(run, i)
 	}
